@@ -155,19 +155,10 @@ Theorem C18_component_unknown : forall cat name m t nsid ids labs parent,
 Proof. exact component_unknown_raises. Qed.
 Print Assumptions C18_component_unknown.
 
-(* Unit counts.  FULL STATEMENT (what the property asks: the number of devices behind the interface):
-     forall b, units_of b = units_spec b      with units_spec (BList l) = |l|, units_spec _ = 1.
-   It is FALSE of the code: a scalar bdf string gets len(string) units (component_catalog.py:159).  *)
-Theorem C18_units_scalar_bdf_refuted :
-  exists name ct p lb i, gen_iface name ct p 0 None (Some [lb]) = Ok i /\ lab_bdf lb = BStr (S"0000:25:00.0") /\
-                         if_unit i = 12 /\ units_spec (lab_bdf lb) = 1.
-Proof. exact units_scalar_bdf_refuted. Qed.
-Print Assumptions C18_units_scalar_bdf_refuted.
-
-(* partial: excluding exactly the defect's signature (a bdf label that is a single string) *)
-Theorem C18_units_partial : forall b, (forall s, b <> BStr s) -> units_of b = units_spec b.
-Proof. exact units_partial. Qed.
-Print Assumptions C18_units_partial.
+(* Unit counts: the number of devices behind the interface -- the length of a bdf LIST, otherwise 1 *)
+Theorem C18_units : forall b, units_of b = units_spec b.
+Proof. exact units_all. Qed.
+Print Assumptions C18_units.
 
 (* the combined type-model enumeration lists exactly the catalogue entries: member i is named
    massage(Type)_massage(Model), has value i+1 and maps to entry i *)
